@@ -76,4 +76,34 @@ theorem maskBytes_as_modelled :
   rfl
 
 
+/-- today's WriteJSON / ReadJSON (thin wrappers around NextWriter / NextReader) and the functions that put compress/flate around the message writer / reader are the modelled ones -/
+theorem json_and_deflate_plumbing_as_modelled :
+    Gen.stmts_WriteJSON =
+      ["w, err := c.NextWriter(TextMessage)",
+        "if err != nil { return err }",
+        "err1 := json.NewEncoder(w).Encode(v)",
+        "err2 := w.Close()",
+        "if err1 != nil { return err1 }",
+        "return err2"] ∧
+    Gen.stmts_ReadJSON =
+      ["_, r, err := c.NextReader()",
+        "if err != nil { return err }",
+        "err = json.NewDecoder(r).Decode(v)",
+        "if err == io.EOF { err = io.ErrUnexpectedEOF }",
+        "return err"] ∧
+    Gen.stmts_compressNCT =
+      ["p := &flateWriterPools[level-minCompressionLevel]",
+        "tw := &truncWriter{w: w}",
+        "fw, _ := p.Get().(*flate.Writer)",
+        "if fw == nil { fw, _ = flate.NewWriter(tw, level) } else { fw.Reset(tw) }",
+        "return &flateWriteWrapper{fw: fw, tw: tw, p: p}"] ∧
+    Gen.stmts_decompressNCT =
+      ["const tail = \"\\x00\\x00\\xff\\xff\" + \"\\x01\\x00\\x00\\xff\\xff\"",
+        "fr, _ := flateReaderPool.Get().(io.ReadCloser)",
+        "mr := io.MultiReader(r, strings.NewReader(tail))",
+        "if err := fr.(flate.Resetter).Reset(mr, nil); err != nil { fr = flate.NewReader(mr) }",
+        "return &flateReadWrapper{fr: fr, src: mr}"] := by
+  refine ⟨?_, ?_, ?_, ?_⟩ <;> rfl
+
+
 end WS.Props.C01Tie
